@@ -311,8 +311,18 @@ def check_handoff_dep(ctx, P):
 def run(ctx):
     P = ctx.prog()
     check_handoff_dep(ctx, P)
+    from props import deps
+    deps.depend(ctx, P, "C15", "queue.dep", "the unbounded channels' message queues (mpsc_fifo, spsc_fifo)",
+                "a message the queue drops or returns twice is lost / delivered twice whatever the channel code does",
+                lambda x: x.rule.startswith(("mpsc.", "mpsc_fifo.", "spsc.", "spsc_fifo.")) or x.fn in ("mpsc_fifo_init", "spsc_fifo_init"))
     check_send_recv(ctx, P)
     check_signal(ctx, P)
     check_bounded(ctx, P)
     check_multi(ctx, P)
     check_init(ctx, P, "fiber_signal_init", [("fiber_signal", "waiter", 0)])
+    from rules import check_zeroed_alloc
+    check_zeroed_alloc(ctx, P, "fiber_bounded_channel_create", "bounded.create.zero", "the message slots of a new bounded channel",
+                       "NULL marks a free / not yet written slot: on a stale non-NULL slot the sender yields for ever and the receiver sleeps on a signal "
+                       "that is never raised; a stale pointer can also be delivered as a message that was never sent")
+    check_zeroed_alloc(ctx, P, "fiber_multi_channel_create", "multi.create.zero", "the slots of a new multi channel",
+                       "as for the bounded channel")
